@@ -72,6 +72,18 @@ def check(ctx, key, case, fn, a, expected, atol=1e-15, exact32=False):
             ctx.violation(f"{key}/argument-form/{label}/values", dict(case, form=label), np.asarray(expected).tolist(), back(r).tolist(),
                           note=f"a {label} array argument gives other values than the same values in a plain vector")
     check_long(ctx, key, case, fn, a, expected, atol)
+    # the result belongs to the caller: overwriting it must not change what a later call returns
+    try:
+        first = fn(np.array(a, dtype=float, copy=True))
+        if isinstance(first, np.ndarray) and first.flags.writeable and first.size:
+            first[...] = -7.0
+            ctx.count()
+            again = np.asarray(fn(np.array(a, dtype=float, copy=True)), dtype=float)
+            if again.shape != np.asarray(expected).shape or not np.allclose(again, expected, rtol=0, atol=atol, equal_nan=True):
+                ctx.violation(f"{key}/result-shared-between-calls", dict(case, form="result overwritten by the caller"), np.asarray(expected).tolist(), again.tolist(),
+                              note="after the caller overwrote the array returned by one call, the next call with the same argument returns other values")
+    except Exception as ex:
+        ctx.violation(f"{key}/result-shared-between-calls/raises-{type(ex).__name__}", dict(case), "values", f"{type(ex).__name__}: {ex}")
 
 
 LONG = 4100     # longer than any power-of-two chunk up to 4096
